@@ -36,6 +36,12 @@ func (s *Solutions) Close() error {
 	}
 	close(s.more)
 	s.closed = true
+	if s.next != nil {
+		// The search is parked waiting for s.more, or over. Wait until it's gone: what it records on its way out (s.err) is
+		// then settled, and Err doesn't change its mind after Close.
+		for range s.next {
+		}
+	}
 	return nil
 }
 
